@@ -306,12 +306,13 @@ def view (t : T) : Sprout.View :=
 
 def doSprout (t : T) : List (Id × Ind) → List NewEnv → Except String T
   | [], [] => .ok t
-  | (pid, s) :: rest, e :: es => do
-    let p ← match t.find pid with
-      | some p => pure p
-      | none => throw s!"unknown parent {showId pid}"
-    let t1 ← createDeme t (some p) (some s) e
-    doSprout t1 rest es
+  | (pid, s) :: rest, e :: es =>
+    match t.find pid with
+    | none => .error s!"unknown parent {showId pid}"
+    | some p =>
+      match createDeme t (some p) (some s) e with
+      | .error err => .error err
+      | .ok t1 => doSprout t1 rest es
   | _, _ => .error "number of created demes differs from the number of seeds"
 
 /-- hibernation flags after a round: every active non-leaf deme that existed before the
